@@ -15,15 +15,17 @@ Definition usable_for2 (hasSel : bool) (i1 i2 : nat) (r : row) : bool :=
   is_active hasSel r && isdef (nth i1 (r_vals r) None) && isdef (nth i2 (r_vals r) None).
 Definition reduce_var2 (hasSel : bool) (i1 i2 : nat) (l : list row) : list row := filter (usable_for2 hasSel i1 i2) l.
 
-(* the same reduction seen through ranks: kept ranks K and the sub-table on K *)
-Definition kept_rows (hasSel : bool) (db : list row) : list nat :=
-  kidx (fun i => is_active hasSel (nth_row db i)) (length db).
-Definition reduce_db (hasSel : bool) (db : list row) : list row := lsub dummy_row (kept_rows hasSel db) db.
+(* the same reduction seen through ranks: kept ranks K and the sub-table on K.  With useCoord (covariance and drift
+   matrices) the samples without coordinates are removed as well *)
+Definition row_kept (hasSel useCoord : bool) (r : row) : bool :=
+  is_active hasSel r && (negb useCoord || coords_defined r).
+Definition kept_rows (hasSel useCoord : bool) (db : list row) : list nat :=
+  kidx (fun i => row_kept hasSel useCoord (nth_row db i)) (length db).
+Definition reduce_db (hasSel useCoord : bool) (db : list row) : list row := lsub dummy_row (kept_rows hasSel useCoord db) db.
 
-(* a selection column is well formed when the two readings of it in the code agree:
-   isActive (value defined and not 0) and getRanksActive (value > 0) *)
-Definition sel_wf (hasSel : bool) (db : list row) : Prop :=
-  hasSel = true -> forall r, In r db -> sel_pass r = is_active true r.
+(* turning bands: the samples that count *)
+Definition simu_kept (hasSel : bool) (nz : nat) (r : row) : bool := is_active hasSel r && simu_usable nz r.
+Definition reduce_simu (hasSel : bool) (nz : nat) (l : list row) : list row := filter (simu_kept hasSel nz) l.
 
 (* targets: the state of the output Db before the calculation *)
 Definition old_cells (t : trow) : list oq := t_cells t.
